@@ -471,7 +471,7 @@ def r14_14_exact_key_match(ctx, rid='R14.14'):
     key text with the name they were given and with nothing derived from it (dashed spelling, case folding ...)."""
     P = ctx.P
     r = ctx.rule(rid, 'attribute lookup is by the exact key text: every comparison of a key with a name compares with the parameter '
-                      'itself', floor=4)
+                      'itself', floor=1)
     n = 0
     for name in ('has_attribute', 'get_attribute', '__attr_index', 'remove_attribute', 'rename_attribute'):
         key = H.NODE + name
@@ -743,4 +743,78 @@ def r07_5_quoted_scalars_read_back(ctx, rid='R07.5'):
                'scalar, which the recogniser accepts only where str is declared: a value containing a %s does not survive '
                'dumps_json + load' % (kind, {'timestamp': 'date'}.get(kind, kind)))
     r.ok('kinds written as JSON strings: %s' % sorted(quoted))
+    r.done()
+
+
+def r01_13_extras_partition(ctx, rid='R01.13'):
+    """What __init__ receives when the class takes _yatiml_extra: every constructed attribute exactly once - those that name a
+    parameter under their own name, all others together, in document order, in an OrderedDict under `_yatiml_extra` - and
+    nothing the document did not give.  Decided on the mapping-provenance abstraction (E11): the spelling (copy and delete, insert
+    loop, comprehensions) is immaterial, the partition is compared on key classes."""
+    from ..dictflow import Flow, DictAbs, Unsupported, cond_truth
+    P = ctx.P
+    r = ctx.rule(rid, '__split_off_extra_attributes partitions the constructed mapping: keys naming a parameter (other than '
+                      '_yatiml_extra) stay, with their values; all other keys go, with their values, into an OrderedDict stored '
+                      'under "_yatiml_extra"; nothing else is added', floor=4)
+    f = fn(P, CTOR + '__split_off_extra_attributes')
+    params = [p for p in f.fi.params if p != 'self']
+    if len(params) != 2:
+        raise AnalysisError('anchor changed: Constructor.__split_off_extra_attributes(mapping, known_attrs)')
+    m, known = params
+    fl = Flow({m: 'mapping', known: 'other'})
+    try:
+        fl.run([s for s in f.fi.node.body])
+        if not isinstance(fl.result, DictAbs):
+            raise Unsupported('the returned value is not a locally built mapping')
+    except Unsupported as e:
+        r.fail(f.key('partition-form'), f.loc(), '__split_off_extra_attributes is not in a form whose partition can be read off '
+               '(%s)' % e)
+        r.done()
+        return
+    res = fl.result
+    classes = [(k, ink) for k in ('_yatiml_extra', 'self', 'some_key') for ink in (False, True)]
+
+    def table(part):
+        out = {}
+        for k, ink in classes:
+            out[(k, ink)] = cond_truth(part.cond, k, {known: ink})
+        return out
+
+    def check_part(d, what, want, keyname):
+        own = [p for p in d.parts if p.source == m]
+        foreign = [p for p in d.parts if p.source != m]
+        r.check(not foreign, '%s draws its entries from the constructed mapping only' % what, f.key(keyname + ':source'), f.loc(),
+                '%s is filled from %s, not from the constructed mapping: __init__ receives arguments the document did not give '
+                '(an omitted optional parameter arrives as None instead of taking its default)'
+                % (what, ', '.join(p.source for p in foreign)[:80]))
+        bad_kv = [p for p in own if p.key != '‹K›' or p.value != 'V']
+        r.check(not bad_kv, '%s keeps each key with its own value' % what, f.key(keyname + ':entries'), f.loc(),
+                '%s does not map each key to its constructed value (%s)' % (what, bad_kv[:1]))
+        # union of the parts' conditions must be the wanted predicate; overlapping parts are harmless (same entry twice)
+        for k, ink in classes:
+            ts = [table(p)[(k, ink)] for p in own]
+            if any(t is None for t in ts):
+                got = None
+            else:
+                got = any(ts)
+            w = want(k, ink)
+            desc = 'key %r %s the parameter list' % (k if k != 'some_key' else '<any other>', 'in' if ink else 'not in')
+            r.check(got is w, '%s: %s -> %s' % (what, desc, 'kept' if w else 'left out'), f.key('%s:%s:%s' % (keyname, k, ink)), f.loc(),
+                    '%s: %s is %s, it should be %s' % (what, desc, 'undetermined' if got is None else ('kept' if got else 'left out'),
+                                                       'kept' if w else 'left out'))
+
+    check_part(res, 'the mapping passed on to __init__', lambda k, ink: ink and k != '_yatiml_extra', 'main')
+    extra_consts = {k: v for k, v in res.consts.items()}
+    r.check(set(extra_consts) == {'_yatiml_extra'}, 'the only added entry is "_yatiml_extra"', f.key('added-entries'), f.loc(),
+            'entries added to the arguments under literal keys: %s (wanted exactly "_yatiml_extra")' % sorted(map(str, extra_consts)))
+    ex = extra_consts.get('_yatiml_extra')
+    if isinstance(ex, DictAbs):
+        r.check(ex.kind == 'OrderedDict', 'the extras are an OrderedDict (the documented type of the parameter)', f.key('extras-type'),
+                f.loc(), 'the value passed for _yatiml_extra is a plain %s, the parameter is documented and annotated as OrderedDict '
+                '(move_to_end / popitem(last=..) / order-sensitive equality stop working)' % ex.kind)
+        r.check(not ex.consts, 'the extras hold document entries only', f.key('extras-added'), f.loc(),
+                'entries added to the extras under literal keys %s' % sorted(map(str, ex.consts)))
+        check_part(ex, 'the extras', lambda k, ink: not (ink and k != '_yatiml_extra'), 'extras')
+    elif ex is not None:
+        r.fail(f.key('extras-type'), f.loc(), 'the value stored under "_yatiml_extra" is not a mapping built in this function (%s)' % str(ex)[:60])
     r.done()
